@@ -240,6 +240,10 @@ func (v *ScriptView) writeModifySQLForAColumn(attrTypeOld, attrTypeNew *sysl.Typ
 			}
 		}
 	}
+	if typeRefNew == nil && isAutoIncrementNew {
+		// columns referring to an autoincrement (bigserial) column are bigint, as in the creation script
+		datatype = bigIntConst
+	}
 	visitedAttributes[tableName+"."+attrName] = datatype
 	return primaryKeyChanged, isPrimaryKeyOld
 }
